@@ -247,7 +247,10 @@ func genDirIntervals5(g *vlib.G) {
 // to directed graphs on 5 nodes (quick: a fixed sixteenth, thorough: all).
 func genDirTopo5(g *vlib.G) {
 	forDirected5(g, 16, 1, func(key string, s gspec) {
-		plan := plan5(g, s.mask)
+		plan := twoCombos(s.mask)
+		if g.Thorough() {
+			plan = oneMapCombos(s.mask)
+		}
 		g.Case(key, func(t *vlib.T) { dirTopoCase(t, "dir-topo5", key, s, plan) })
 	})
 }
@@ -270,6 +273,10 @@ func genUndTopo(g *vlib.G) {
 			return
 		}
 		plan := undPlan(g, &s)
+		if s.n == 6 && !g.Thorough() {
+			// quick: two realisations of a 6-node graph (ascending harness graph + one other).
+			plan = twoCombos(s.mask)
+		}
 		g.Case(key, func(t *vlib.T) {
 			s := s
 			o := newUndirOracle(&s)
